@@ -4,6 +4,7 @@ package checks
 
 import (
 	"bytes"
+	"encoding/binary"
 	"encoding/hex"
 	"fmt"
 	"os"
@@ -413,6 +414,56 @@ func propC08(t *rapid.T) {
 			}
 			for _, in := range ptx.TxIn {
 				spentInStore[in.PreviousOutPoint] = true
+			}
+		}
+		// ... and nothing may be left that points at a pending transaction which is gone: a record in the
+		// pending-input index (outpoint -> pending spenders) or in the pending-credit index whose
+		// transaction is not in the pending store any more is residue of the removal (it is keyed by a
+		// coin of the removed wallet, not by its id or addresses, so the id scan cannot see it)
+		inStore := map[wire.Hash]bool{}
+		for k := range store {
+			if len(k) >= 32 {
+				var h wire.Hash
+				copy(h[:], k[:32])
+				inStore[h] = true
+			}
+		}
+		for k, v := range w.readBucket(t, "u", "mi") {
+			if len(k) < 36 || victim == nil {
+				continue
+			}
+			// whose coin is this outpoint? (the index also holds the foreign inputs of pending transactions;
+			// entries for those that outlive a transaction only the removed wallet knew are garbage, but they
+			// are keyed by nobody's coin and the statement does not speak about them)
+			var op wire.OutPoint
+			copy(op.Hash[:], k[:32])
+			op.Index = binary.BigEndian.Uint32([]byte(k[32:36]))
+			ptx := w.node.KnownTx(op.Hash)
+			if ptx == nil {
+				ptx = w.everSeen[op.Hash]
+			}
+			if ptx == nil || int(op.Index) >= len(ptx.TxOut) {
+				continue
+			}
+			if _, hh, _, _ := classify(ptx.TxOut[op.Index].PkScript); !victim.owns[hh] {
+				continue
+			}
+			for off := 0; off+32 <= len(v); off += 32 {
+				var h wire.Hash
+				copy(h[:], v[off:off+32])
+				if !inStore[h] {
+					t.Fatalf("after the removal the pending-input index still holds a record keyed by a coin of the removed wallet: %v is 'spent by' %s, a transaction that is not in the pending store any more\n  %s", op, h.String()[:10], w.journalTail(40))
+				}
+			}
+		}
+		for k := range w.readBucket(t, "u", "mc") {
+			if len(k) < 32 {
+				continue
+			}
+			var h wire.Hash
+			copy(h[:], k[:32])
+			if !inStore[h] {
+				t.Fatalf("after the removal the pending-credit index still holds an output of %s, a transaction that is not in the pending store any more\n  %s", h.String()[:10], w.journalTail(40))
 			}
 		}
 		for _, m := range w.wallets {
